@@ -107,7 +107,7 @@ def run(ctx):
                 r.inst({"unknown_encoding_edge": "returns Err, builds no decoder" if ok else f"builds {builds}"}, ok)
                 if not ok:
                     r.violate(fn.id, "unknown-encoding", f"an encoding not handled explicitly still constructs {builds}", rec["file"], t[5])
-    return [r, rule_carry(facts)]
+    return [r, rule_carry(facts), rule_cursor(facts, "C10-CURSOR", ["glaredb_ext_parquet"], 8)]
 
 
 def rule_carry(facts):
@@ -131,6 +131,23 @@ def rule_carry(facts):
                           inst["file"], inst["line"])
     return r
 
+
+
+def rule_cursor(facts, rule, crates, floor):
+    """see rules/cursor.py"""
+    from .cursor import cursor_sites
+    r = RuleResult(rule, "a loop that decrements its remaining-count by the amount it hands to a copy/read call advances the offset argument of that "
+                   "call by the same amount (no slice of the input is processed twice, none is skipped)", floor=floor)
+    for s_ in cursor_sites(facts, crates):
+        r.functions.add(s_["fn"])
+        r.call_sites += 1
+        r.inst({k: v for k, v in s_.items() if k != "file"}, s_["advanced"])
+        if not s_["advanced"]:
+            r.violate(s_["fn"], f"cursor-not-advanced:{s_['callee']}:{s_['offset_param']}",
+                      f"the loop subtracts `{s_['amount']}` from `{s_['remaining']}` and passes it to `{s_['callee']}` (line {s_['line']}), but the `{s_['offset_param']}` "
+                      f"argument of that call is never advanced by `{s_['amount']}` inside the loop: every further iteration handles the same slice again "
+                      "(rows duplicated, the tail lost, counts unchanged)", s_["file"], s_["line"])
+    return r
 
 CLAIM = {
     "text": "Table-agreement rule on MIR: the (encoding, physical type) reachability of every PageDecoder construction site, derived from the "
